@@ -141,6 +141,52 @@ static std::string run_tsm(const Cmd& c){
     return std::string(buf);
 }
 
+//   numc H B mode N seed cx cy cz width chargemode : upward pass only (P2M + M2M); at every level >= 2 the sum over all cells of the
+//   multipole coefficients (uniform kernel: all interpolation weights - partition of unity; rotation kernel: the l = m = 0
+//   coefficient) must equal the total charge.  output: cons=<max over levels |sum - Q| / sum |q|> levels=<n>
+static std::string run_conservation(const Cmd& c){
+    const long H = c.L(1), B = c.L(2), mode = c.L(3), N = c.L(4);
+    lcg = (unsigned long)c.L(5) * 7919 + 17;
+    const Real cx = Real(c.D(6)), cy = Real(c.D(7)), cz = Real(c.D(8)), w = Real(c.D(9));
+    const long chargemode = c.L(10);
+    const std::array<Real, Dim> widths{{w, w, w}}; const std::array<Real, Dim> center{{cx, cy, cz}};
+    TbfSpacialConfiguration<Real, Dim> conf(H, widths, center);
+    std::vector<std::array<Real, Dim+1>> pos(N);
+    long double Q = 0, Qabs = 0;
+    for(long i = 0 ; i < N ; ++i){
+        pos[i][0] = Real(cx + (rnd() - 0.5) * 0.998 * w); pos[i][1] = Real(cy + (rnd() - 0.5) * 0.998 * w); pos[i][2] = Real(cz + (rnd() - 0.5) * 0.998 * w);
+        pos[i][3] = pick_charge(chargemode);
+        Q += pos[i][3]; Qabs += std::fabs((long double)pos[i][3]);
+    }
+    TreeClass tree(conf, TbfUtils::make_const(pos), B, mode != 0);
+    std::cout.setstate(std::ios_base::failbit);
+    {
+#if KERNEL == 0
+        std::unique_ptr<TbfAlgorithm<Real, KernelClass, Space>> a(new TbfAlgorithm<Real, KernelClass, Space>(conf));
+#else
+        FInterpMatrixKernelR<Real> interp;
+        std::unique_ptr<TbfAlgorithm<Real, KernelClass, Space>> a(new TbfAlgorithm<Real, KernelClass, Space>(conf, KernelClass(conf, &interp)));
+#endif
+        a->execute(tree, TbfAlgorithmUtils::TbfP2M | TbfAlgorithmUtils::TbfM2M);
+    }
+    std::cout.clear();
+    std::vector<long double> sums(H, 0.0L);
+    tree.applyToAllCells([&](long level, auto&&, auto&& multipoleOpt, auto&&){
+        if(!multipoleOpt) return;
+        const auto& m = multipoleOpt->get();
+#if KERNEL == 0
+        sums[level] += (long double)m[0].real();
+#else
+        for(long k = 0 ; k < VectorSize ; ++k) sums[level] += (long double)m.multipole_exp[k];
+#endif
+    });
+    long double worst = 0; long levels = 0;
+    for(long l = 2 ; l < H ; ++l){ const long double e = std::fabs(sums[l] - Q) / Qabs; if(e > worst) worst = e; levels += 1; }
+    char buf[160];
+    std::snprintf(buf, sizeof buf, "cons=%.6Le levels=%ld Q=%.17Le", worst, levels, Q);
+    return std::string(buf);
+}
+
 //   nump H B mode k N seed cx cy cz width chargemode : the documented four-step periodic sequence with k extra levels, compared
 //   with the explicit long-double sum over every image of the repetition interval the library reports
 static std::string run_periodic(const Cmd& c){
@@ -214,6 +260,7 @@ int main(int argc, char** argv){
     return run_commands(argc, argv, [](const Cmd& c) -> std::string {
         if(c.tok[0] == "nump") return run_periodic(c);
         if(c.tok[0] == "numt") return run_tsm(c);
+        if(c.tok[0] == "numc") return run_conservation(c);
         if(c.tok[0] != "num") return "?unknown";
         const long H = c.L(1), B = c.L(2), mode = c.L(3), exec = c.L(4), N = c.L(5);
         lcg = (unsigned long)c.L(6) * 7919 + 17;
